@@ -319,6 +319,29 @@ def exact_double(x):
     return f if Fraction(f) == x else None
 
 
+def certain_underflow(x):
+    """x is a non-zero exact value of magnitude below 2^-1075 (half the smallest denormal): its nearest double is zero."""
+    if x in MARKERS or isinstance(x, float):
+        return False
+    x = Fraction(x)
+    return x != 0 and abs(x) < Fraction(1, 1 << 1075)
+
+
+def show_exact(x):
+    """str(x) that stays short (and inside the int->str digit limit) for enormous or minuscule rationals."""
+    if x in MARKERS or not isinstance(x, (int, Fraction)):
+        return str(x)
+    x = Fraction(x)
+    if x.numerator.bit_length() <= 200 and x.denominator.bit_length() <= 200:
+        return str(x)
+    n, d = x.numerator, x.denominator
+    tz = (d & -d).bit_length() - 1 if d > 1 else 0
+    if d == 1 << tz:
+        odd_tz = (abs(n) & -abs(n)).bit_length() - 1 if n else 0
+        return '%d*2^%d' % (n >> odd_tz, odd_tz - tz)
+    return '%s~2^%d' % ('-' if n < 0 else '', abs(n).bit_length() - d.bit_length())
+
+
 def float_equals_exact(observed, expected):
     """observed (whatever the code under test returned) is the float with exactly the value ``expected``."""
     if expected == NAN:
@@ -508,9 +531,12 @@ def np_lis50(words):
     top = e - 15 + bl - 1
     low = e - 15 + tz
     rep = (m == 0) | ((top <= 1023) & (low >= -1074))
+    # certain underflow: |value| < 2^-1075 is less than half the smallest denormal, so the nearest double is (+/-) zero
+    under = (m != 0) & (top <= -1076)
     with np.errstate(over='ignore', under='ignore'):
         v = np.ldexp(m.astype(np.float64), (e - 15).astype(np.int32))
-    return v, rep
+    v = np.where(under, 0.0, v)
+    return v, rep | under
 
 
 def np_lis68(words):
@@ -660,12 +686,15 @@ def self_check(rng, n=2000):
                 ok = not asserted[i]
             else:
                 d = exact_double(x)
-                if d is None:
+                if d is None and certain_underflow(x):
+                    # |x| < 2^-1075: the nearest double is a zero; the vector version asserts 0.0
+                    ok = bool(asserted[i]) and not nan[i] and vals[i] == 0.0
+                elif d is None:
                     ok = not asserted[i]
                 else:
                     ok = bool(asserted[i]) and not nan[i] and Fraction(vals[i].item()) == Fraction(x)
                     if ok and code in ('FSINGL', 'FDOUBL') and x == 0:
                         ok = (double_bits(float(vals[i])) >> 63) == ieee_sign(w, bits)
             if not ok and len(bad) < 10:
-                bad.append('%s word %#x: vector %r asserted=%s, exact %s' % (code, w, vals[i].item(), bool(asserted[i]), x))
+                bad.append('%s word %#x: vector %r asserted=%s, exact %s' % (code, w, vals[i].item(), bool(asserted[i]), show_exact(x)))
     return total, bad
